@@ -32,7 +32,14 @@ pub const KEYS: &[&[&str]] = &[
     &["https://a.example", "https://A.EXAMPLE"],
     &["http://a.example:8080", "http://A.example:8080"],
     &["http://b.example", "http://B.example"],
+    // origins that differ from one above only in scheme or in a port that is "default" for the other scheme
+    &["http://a.example:443", "http://A.example:443"],
+    &["https://a.example:80"],
+    &["ws://a.example:8080"],
+    &["wss://a.example:8080", "wss://A.Example:8080"],
 ];
+/// groups of keys that a sloppy pool key could confuse
+const CONFUSABLE: &[&[u64]] = &[&[0, 4], &[1, 5], &[2, 6], &[2, 7], &[6, 7], &[0, 1], &[0, 2], &[0, 3]];
 
 fn key_of_uri(uri: &http::Uri) -> usize {
     let s = format!("{}://{}", uri.scheme_str().unwrap_or("").to_ascii_lowercase(), uri.authority().map(|a| a.as_str().to_ascii_lowercase()).unwrap_or_default());
@@ -46,6 +53,7 @@ enum Outcome { Ok(bool), FailConnect, FailHandshake }
 struct DialSlot { started: bool, outcome: Option<Outcome>, waker: Option<Waker> }
 
 struct ConnState {
+    lax: bool, // `is_open()` reports only whether the peer closed, not readiness
     h2: bool,
     origin: usize,
     open: AtomicBool,
@@ -55,6 +63,7 @@ struct ConnState {
 
 #[derive(Default)]
 struct World {
+    lax: bool,
     dials: HashMap<usize, DialSlot>,
     dial_count: usize,
     conns: Vec<Arc<ConnState>>,
@@ -128,7 +137,7 @@ impl Connection<Body> for SConn {
     fn version(&self) -> http::Version { if self.st.h2 { http::Version::HTTP_2 } else { http::Version::HTTP_11 } }
 }
 impl PoolableConnection<Body> for SConn {
-    fn is_open(&self) -> bool { self.st.open.load(Ordering::SeqCst) && !self.st.busy.load(Ordering::SeqCst) }
+    fn is_open(&self) -> bool { self.st.open.load(Ordering::SeqCst) && (self.st.lax || !self.st.busy.load(Ordering::SeqCst)) }
     fn can_share(&self) -> bool { self.st.h2 }
     fn reuse(&mut self) -> Option<Self> { if self.st.h2 { Some(SConn { id: self.id, st: self.st.clone(), w: self.w.clone() }) } else { None } }
 }
@@ -146,7 +155,7 @@ impl Service<ProtocolRequest<SIo, Body>> for SProtocol {
         if io.handshake_fails { return std::future::ready(Err(ConnectionError::Handshake(Box::new(SErr("handshake"))))); }
         let h2 = req.version.multiplex() || io.alpn;
         let mut w = self.0.lock().unwrap();
-        let st = Arc::new(ConnState { h2, origin: io.origin, open: AtomicBool::new(true), busy: AtomicBool::new(false), wakers: Mutex::new(vec![]) });
+        let st = Arc::new(ConnState { lax: w.lax, h2, origin: io.origin, open: AtomicBool::new(true), busy: AtomicBool::new(false), wakers: Mutex::new(vec![]) });
         let id = w.conns.len();
         w.conns.push(st.clone());
         let _ = io.req;
@@ -184,7 +193,7 @@ impl Service<ExecuteRequest<Pooled<SConn, Body>, Body>> for SExec {
 struct WakeFlag(AtomicBool);
 impl Wake for WakeFlag { fn wake(self: Arc<Self>) { self.0.store(true, Ordering::SeqCst); } }
 
-#[derive(PartialEq)]
+#[derive(PartialEq, Clone, Copy)]
 enum Status { Checkout, Exec, Done }
 type Svc = ConnectionPoolService<STransport, SProtocol, SExec, Body>;
 type Fut = Pin<Box<dyn Future<Output = Result<http::Response<Body>, hyperdriver::client::Error>>>>;
@@ -209,48 +218,53 @@ fn classify_err(e: &hyperdriver::client::Error) -> &'static str {
     }
 }
 
-async fn run_case(cfg: &[&str], ops: &[Vec<&str>]) -> String {
-    let w: W = Default::default();
-    let mut pc = hyperdriver::client::pool::Config::default();
-    pc.idle_timeout = cfg[0].parse::<u64>().ok().map(std::time::Duration::from_millis);
-    pc.max_idle_per_host = cfg[1].parse().unwrap_or(32);
-    pc.continue_after_preemption = cfg[2] == "1";
-    let mut svc: Svc = ConnectionPoolService::new(STransport(w.clone()), SProtocol(w.clone()), SExec(w.clone()), pc);
-    let mut reqs: HashMap<usize, Req> = HashMap::new();
-    let mut out: Vec<String> = Vec::new();
-    for op in ops {
+struct Session { w: W, svc: Svc, reqs: HashMap<usize, Req> }
+
+impl Session {
+    fn new(cfg: &[&str]) -> Session {
+        let w: W = Default::default();
+        w.lock().unwrap().lax = cfg.get(3) == Some(&"1");
+        let mut pc = hyperdriver::client::pool::Config::default();
+        pc.idle_timeout = cfg[0].parse::<u64>().ok().map(std::time::Duration::from_millis);
+        pc.max_idle_per_host = cfg[1].parse().unwrap_or(32);
+        pc.continue_after_preemption = cfg[2] == "1";
+        let svc: Svc = ConnectionPoolService::new(STransport(w.clone()), SProtocol(w.clone()), SExec(w.clone()), pc);
+        Session { w, svc, reqs: HashMap::new() }
+    }
+
+    async fn apply(&mut self, op: &[&str]) -> String {
         let n = |i: usize| op.get(i).and_then(|s| s.parse::<usize>().ok()).unwrap_or(9999);
         let res: String = match op.first().copied().unwrap_or("") {
             "i" => {
                 let (r, k, mux) = (n(1), n(2), op.get(3) == Some(&"1"));
-                if reqs.contains_key(&r) || k >= KEYS.len() { "N".into() } else {
+                if self.reqs.contains_key(&r) || k >= KEYS.len() { "N".into() } else {
                     let variants = KEYS[k];
                     let uri = format!("{}/r{}", variants[r % variants.len()], r);
                     let request = http::Request::builder().uri(uri).version(if mux { http::Version::HTTP_2 } else { http::Version::HTTP_11 })
                         .header("x-req", r.to_string()).body(Body::empty()).unwrap();
-                    let fut: Fut = Box::pin(svc.call(request));
-                    reqs.insert(r, Req { fut: Some(fut), status: Status::Checkout, flag: Arc::new(WakeFlag(AtomicBool::new(false))) });
+                    let fut: Fut = Box::pin(self.svc.call(request));
+                    self.reqs.insert(r, Req { fut: Some(fut), status: Status::Checkout, flag: Arc::new(WakeFlag(AtomicBool::new(false))) });
                     "D".into()
                 }
             }
             "p" => {
                 let r = n(1);
-                match reqs.get_mut(&r) {
+                match self.reqs.get_mut(&r) {
                     Some(rq) if rq.status == Status::Checkout => {
                         let woke = rq.flag.0.swap(false, Ordering::SeqCst);
                         let waker = Waker::from(rq.flag.clone());
                         let mut cx = Context::from_waker(&waker);
-                        let before = w.lock().unwrap().execs.len();
+                        let before = self.w.lock().unwrap().execs.len();
                         let fut = rq.fut.as_mut().unwrap();
                         let polled = std::panic::catch_unwind(std::panic::AssertUnwindSafe(|| fut.as_mut().poll(&mut cx)));
                         let mut s = match polled {
                             Err(_) => { rq.fut.take().map(std::mem::forget); rq.status = Status::Done; "X".to_string() }
                             Ok(Poll::Pending) => {
-                                let ex = { let w = w.lock().unwrap(); if w.execs.len() > before { Some(w.execs[before]) } else { None } };
+                                let ex = { let w = self.w.lock().unwrap(); if w.execs.len() > before { Some(w.execs[before]) } else { None } };
                                 match ex {
                                     Some((_, c, reused)) => {
                                         rq.status = Status::Exec;
-                                        let st = w.lock().unwrap().conns[c].clone();
+                                        let st = self.w.lock().unwrap().conns[c].clone();
                                         format!("G{c}.{}.{}.{}", reused as u8, st.origin, st.h2 as u8)
                                     }
                                     None => "P".to_string(),
@@ -267,16 +281,16 @@ async fn run_case(cfg: &[&str], ops: &[Vec<&str>]) -> String {
             }
             "c" => {
                 let r = n(1);
-                match reqs.get_mut(&r) {
+                match self.reqs.get_mut(&r) {
                     Some(rq) if rq.status != Status::Done => { rq.fut = None; rq.status = Status::Done; "D".into() }
                     _ => "N".into(),
                 }
             }
             "f" => {
                 let r = n(1);
-                match reqs.get_mut(&r) {
+                match self.reqs.get_mut(&r) {
                     Some(rq) if rq.status == Status::Exec => {
-                        w.lock().unwrap().finished.insert(r);
+                        self.w.lock().unwrap().finished.insert(r);
                         let waker = Waker::from(rq.flag.clone());
                         let mut cx = Context::from_waker(&waker);
                         let _ = rq.fut.as_mut().unwrap().as_mut().poll(&mut cx);
@@ -291,7 +305,7 @@ async fn run_case(cfg: &[&str], ops: &[Vec<&str>]) -> String {
                 let r = n(1);
                 let o = match op.get(2).copied() { Some("ok0") => Some(Outcome::Ok(false)), Some("ok1") => Some(Outcome::Ok(true)), Some("fc") => Some(Outcome::FailConnect), Some("fh") => Some(Outcome::FailHandshake), _ => None };
                 let waker = {
-                    let mut wl = w.lock().unwrap();
+                    let mut wl = self.w.lock().unwrap();
                     match (wl.dials.get_mut(&r), o) {
                         (Some(slot), Some(o)) if slot.started && slot.outcome.is_none() => { slot.outcome = Some(o); Some(slot.waker.take()) }
                         _ => None,
@@ -301,7 +315,7 @@ async fn run_case(cfg: &[&str], ops: &[Vec<&str>]) -> String {
             }
             "cr" | "cc" => {
                 let c = n(1);
-                let st = w.lock().unwrap().conns.get(c).cloned();
+                let st = self.w.lock().unwrap().conns.get(c).cloned();
                 match st {
                     Some(st) => {
                         if op[0] == "cr" { st.busy.store(false, Ordering::SeqCst); } else { st.open.store(false, Ordering::SeqCst); }
@@ -317,16 +331,36 @@ async fn run_case(cfg: &[&str], ops: &[Vec<&str>]) -> String {
             "mark" => "D".into(),
             _ => "N".into(),
         };
-        out.push(format!("{res} {}", snapshot(&svc, &w)));
+        format!("{res} {}", snapshot(&self.svc, &self.w))
     }
-    drop(reqs);
+
+    // ---- what is enabled (used by the feedback-driven generator)
+    fn in_status(&self, st: Status) -> Vec<usize> { let mut v: Vec<usize> = self.reqs.iter().filter(|(_, r)| r.status == st).map(|(k, _)| *k).collect(); v.sort(); v }
+    fn pending_dials(&self) -> Vec<usize> { let w = self.w.lock().unwrap(); let mut v: Vec<usize> = w.dials.iter().filter(|(_, d)| d.started && d.outcome.is_none()).map(|(k, _)| *k).collect(); v.sort(); v }
+    fn conns(&self, busy: bool) -> Vec<usize> { let w = self.w.lock().unwrap(); (0..w.conns.len()).filter(|i| w.conns[*i].open.load(Ordering::SeqCst) && w.conns[*i].busy.load(Ordering::SeqCst) == busy).collect() }
+}
+
+async fn run_case(cfg: &[&str], ops: &[Vec<&str>]) -> String {
+    let mut sess = Session::new(cfg);
+    let mut out: Vec<String> = Vec::new();
+    // idle expiry uses the real clock: if the machine stalls, the measured case says nothing
+    let timed = cfg[0].parse::<u64>().map(|t| t > 0 && t < 10_000).unwrap_or(false);
+    let mut unreliable = false;
+    for op in ops {
+        let t0 = std::time::Instant::now();
+        out.push(sess.apply(op).await);
+        let el = t0.elapsed().as_millis() as u64;
+        let allowed = if op.first() == Some(&"t") { op.get(1).and_then(|s| s.parse::<u64>().ok()).unwrap_or(0) + 20 } else { 12 };
+        if timed && el > allowed { unreliable = true; }
+    }
+    if unreliable { return "unreliable".into(); }
     out.join(" ; ")
 }
 
 pub fn run(toks: &[&str]) -> String {
     let mut parts: Vec<Vec<&str>> = vec![vec![]];
     for t in toks { if *t == ";" { parts.push(vec![]); } else { parts.last_mut().unwrap().push(*t); } }
-    if parts[0].len() != 3 { return "bad-input".into(); }
+    if parts[0].len() < 3 { return "bad-input".into(); }
     let cfg = parts[0].clone();
     let ops: Vec<Vec<&str>> = parts[1..].to_vec();
     let rt = tokio::runtime::Builder::new_current_thread().enable_time().start_paused(true).build().unwrap();
@@ -334,70 +368,138 @@ pub fn run(toks: &[&str]) -> String {
 }
 
 // ------------------------------------------------------------------------------------------
-pub fn gen(r: &mut Rng, i: u64) -> String {
-    let timed = i % 40 == 7; // a few cases exercise real idle expiry (slow: real sleeps)
-    let idle = if timed { "50".to_string() } else if r.chance(1, 4) { "0".to_string() } else if r.chance(1, 3) { "600000".to_string() } else { "-".to_string() };
-    let max_idle = *r.pick(&[0u64, 1, 1, 2, 3, 32, 32]);
-    let cap = r.chance(1, 2) as u8;
-    let nkeys = r.range(1, 3);
-    let keyset: Vec<u64> = { let mut ks: Vec<u64> = (0..4).collect(); for j in 0..4 { let x = r.below(4) as usize; ks.swap(j, x); } ks.truncate(nkeys as usize); ks };
-    let h2_bias = r.below(3); // 0: all h1, 1: mixed, 2: mostly h2
+/// Feedback-driven generation: the schedule is produced while running the real pool, so that most
+/// operations are enabled (a pollable checkout, a pending dial, a busy connection, ...); about one
+/// op in twelve is drawn blindly to keep disabled ops in the mix. Only the op list is emitted.
+pub fn gen(r: &mut Rng, i: u64) -> String { gen_mode(r, i, false) }
+/// Timed cases: real idle expiry (50 ms timeout, real sleeps of 5 / 150 ms). Slow, hence a stream of its own.
+pub fn gen_timed(r: &mut Rng, i: u64) -> String {
+    if i % 3 == 2 { return gen_mode(r, i, true); }
+    // idle-list scenario: build an idle list whose entries differ in age and liveness, then check out
+    let n = r.range(2, 4);
+    let k = r.below(KEYS.len() as u64);
+    let max_idle = *r.pick(&[32u64, 32, 3, 2]);
     let mut ops: Vec<String> = Vec::new();
-    let mut issued: Vec<u64> = Vec::new();
-    let mut next_req = 0u64;
-    let nops = r.range(6, 34);
-    let mut dials_guess = 0u64;
-    for step in 0..nops {
-        if step == 0 || (step == 1 && r.chance(1, 2)) {
-            let k = *r.pick(&keyset);
-            let mux = match h2_bias { 0 => false, 1 => r.chance(1, 2), _ => r.chance(4, 5) };
-            ops.push(format!("i {next_req} {k} {}", mux as u8));
-            issued.push(next_req);
-            next_req += 1;
-            continue;
-        }
-        let pick_req = |r: &mut Rng, issued: &Vec<u64>| if issued.is_empty() { 0 } else { *r.pick(issued) };
-        let wsel = r.weighted(&[if next_req < 8 { 18 } else { 2 }, 30, 5, 16, 10, 6, 3, 10, if timed { 3 } else { 0 }]);
-        match wsel {
-            0 => {
-                let k = *r.pick(&keyset);
-                let mux = match h2_bias { 0 => false, 1 => r.chance(1, 2), _ => r.chance(4, 5) };
-                ops.push(format!("i {next_req} {k} {}", mux as u8));
-                issued.push(next_req);
-                next_req += 1;
-            }
-            1 => ops.push(format!("p {}", pick_req(r, &issued))),
-            2 => ops.push(format!("c {}", pick_req(r, &issued))),
-            3 => { dials_guess += 1; ops.push(format!("d {} {}", pick_req(r, &issued), r.pick(&["ok0", "ok0", "ok0", "ok1", "fc", "fh"]))) }
-            4 => ops.push(format!("f {}", pick_req(r, &issued))),
-            5 => ops.push(format!("cr {}", r.below(dials_guess.max(1)))),
-            6 => ops.push(format!("cc {}", r.below(dials_guess.max(1)))),
-            7 => ops.push("run".to_string()),
-            _ => ops.push(format!("t {}", if r.chance(1, 2) { 150 } else { 5 })),
-        }
-    }
-    // ---- drain: resolve every attempt, run tasks, poll everyone (twice), release everything, probe
-    ops.push("mark".into());
-    for round in 0..2 {
-        for q in &issued { ops.push(format!("d {q} {}", if (q + round) % 3 == 0 { "fc" } else { "ok0" })); }
+    for q in 0..n { ops.push(format!("i {q} {k} 0")); }
+    for q in 0..n { ops.push(format!("p {q}")); }
+    for q in 0..n { ops.push(format!("d {q} ok0")); }
+    for q in 0..n { ops.push(format!("p {q}")); }
+    // release in random order with ticks in between (connection id = request id here: dial order = poll order)
+    let mut order: Vec<u64> = (0..n).collect();
+    for j in 0..order.len() { let x = r.below(order.len() as u64) as usize; order.swap(j, x); }
+    for q in &order {
+        ops.push(format!("f {q}"));
+        ops.push(format!("cr {q}"));
         ops.push("run".into());
-        for q in &issued { ops.push(format!("p {q}")); }
+        match r.below(3) { 0 => ops.push("t 150".into()), 1 => ops.push("t 5".into()), _ => {} }
     }
-    ops.push("run".into());
-    // from here on every attempt has terminated and everybody has been polled since: no checkout may still be pending
-    ops.push("mark".into());
-    for q in &issued { ops.push(format!("p {q}")); }
-    // release everything, then probe every origin with a fresh request (third mark: probe phase)
-    for q in &issued { ops.push(format!("f {q}")); }
-    for c in 0..(issued.len() as u64 + 1) { ops.push(format!("cr {c}")); }
-    ops.push("run".into());
-    ops.push("mark".into());
-    for (j, k) in keyset.iter().enumerate() {
-        let q = 100 + j as u64;
-        ops.push(format!("i {q} {k} {}", (h2_bias == 2) as u8));
-        ops.push(format!("p {q}"));
-        ops.push(format!("d {q} ok0"));
-        ops.push(format!("p {q}"));
-    }
-    format!("{idle} {max_idle} {cap} ; {}", ops.join(" ; "))
+    for c in 0..n { if r.chance(1, 3) { ops.push(format!("cc {c}")); } }
+    if r.chance(1, 3) { ops.push("t 150".into()); }
+    let m = r.range(1, 3);
+    for q in 10..10 + m { ops.push(format!("i {q} {k} 0")); ops.push(format!("p {q}")); }
+    for q in 10..10 + m { ops.push(format!("d {q} ok0")); ops.push(format!("p {q}")); }
+    ops.push("mark".into()); ops.push("run".into()); ops.push("mark".into()); ops.push("mark".into());
+    format!("X50 {max_idle} {} 0 ; {}", r.chance(1, 2) as u8, ops.join(" ; "))
+}
+
+fn gen_mode(r: &mut Rng, _i: u64, timed: bool) -> String {
+    // lazy mode: freshly issued requests are polled reluctantly and cancelled eagerly, few origins, small idle limit
+    let lazy = !timed && r.chance(1, 5);
+    let idle = if timed { "50".to_string() } else if r.chance(1, 4) { "0".to_string() } else if r.chance(1, 3) { "600000".to_string() } else { "-".to_string() };
+    let max_idle = if timed { *r.pick(&[2u64, 3, 32]) } else if lazy { *r.pick(&[1u64, 1, 2]) } else { *r.pick(&[0u64, 1, 1, 2, 3, 32, 32]) };
+    let cap = r.chance(1, 2) as u8;
+    let lax = r.chance(1, 4) as u8;
+    let keyset: Vec<u64> = if timed || lazy { vec![r.below(KEYS.len() as u64)] } else if r.chance(1, 2) {
+        r.pick(CONFUSABLE).to_vec()
+    } else {
+        let n = r.range(1, 3);
+        let mut ks: Vec<u64> = (0..KEYS.len() as u64).collect();
+        for j in 0..ks.len() { let x = r.below(ks.len() as u64) as usize; ks.swap(j, x); }
+        ks.truncate(n as usize);
+        ks
+    };
+    let h2_bias = if timed || lazy { 0 } else { r.below(3) }; // 0: all h1, 1: mixed, 2: mostly h2
+    let cfg = format!("{idle} {max_idle} {cap} {lax}");
+    let cfg_toks: Vec<&str> = cfg.split(' ').collect();
+    let nops = if timed { r.range(14, 30) } else if lazy { r.range(20, 50) } else { r.range(6, 40) };
+    let rt = tokio::runtime::Builder::new_current_thread().enable_time().start_paused(true).build().unwrap();
+    let ops: Vec<String> = rt.block_on(async {
+        let mut sess = Session::new(&cfg_toks);
+        let mut ops: Vec<String> = Vec::new();
+        let mut next_req = 0u64;
+        let mut issued: Vec<u64> = Vec::new();
+        macro_rules! emit { ($o:expr) => {{ let o: String = $o; let t: Vec<&str> = o.split(' ').collect(); sess.apply(&t).await; ops.push(o); }}; }
+        for step in 0..nops {
+            let co = sess.in_status(Status::Checkout);
+            let ex = sess.in_status(Status::Exec);
+            let dials = sess.pending_dials();
+            let busy = sess.conns(true);
+            let idle_c = sess.conns(false);
+            let blind = r.chance(1, 12);
+            let any_req = |r: &mut Rng| if issued.is_empty() { 0 } else { *r.pick(&issued) };
+            let weights = [
+                if next_req < 9 { if step < 2 { 60 } else { 16 } } else { 1 },                    // issue
+                if blind { 6 } else if co.is_empty() { 0 } else if lazy { 10 } else { 26 },         // poll
+                if blind { 2 } else if co.is_empty() && ex.is_empty() { 0 } else if lazy { 9 } else { 5 }, // cancel
+                if blind { 3 } else if dials.is_empty() { 0 } else { 16 },                          // dial outcome
+                if blind { 3 } else if ex.is_empty() { 0 } else { 12 },                             // finish
+                if blind { 2 } else if busy.is_empty() { 0 } else { 10 },                           // conn ready
+                if blind { 1 } else if idle_c.is_empty() && busy.is_empty() { 0 } else { 3 },       // conn close
+                8,                                                                                   // run
+                if timed { 6 } else { 0 },                                                           // tick
+            ];
+            match r.weighted(&weights) {
+                0 => {
+                    let k = *r.pick(&keyset);
+                    let mux = match h2_bias { 0 => false, 1 => r.chance(1, 2), _ => r.chance(4, 5) };
+                    issued.push(next_req);
+                    emit!(format!("i {next_req} {k} {}", mux as u8));
+                    next_req += 1;
+                }
+                1 => { let q = if blind || co.is_empty() { any_req(r) } else { *r.pick(&co) as u64 }; emit!(format!("p {q}")); }
+                2 => {
+                    let pool: Vec<usize> = co.iter().chain(ex.iter()).copied().collect();
+                    let q = if blind || pool.is_empty() { any_req(r) } else { *r.pick(&pool) as u64 };
+                    emit!(format!("c {q}"));
+                }
+                3 => {
+                    let q = if blind || dials.is_empty() { any_req(r) } else { *r.pick(&dials) as u64 };
+                    emit!(format!("d {q} {}", r.pick(&["ok0", "ok0", "ok0", "ok0", "ok1", "fc", "fh"])));
+                }
+                4 => { let q = if blind || ex.is_empty() { any_req(r) } else { *r.pick(&ex) as u64 }; emit!(format!("f {q}")); }
+                5 => { let c = if blind || busy.is_empty() { r.below(6) } else { *r.pick(&busy) as u64 }; emit!(format!("cr {c}")); }
+                6 => {
+                    let pool: Vec<usize> = idle_c.iter().chain(busy.iter()).copied().collect();
+                    let c = if blind || pool.is_empty() { r.below(6) } else { *r.pick(&pool) as u64 };
+                    emit!(format!("cc {c}"));
+                }
+                7 => emit!("run".to_string()),
+                _ => emit!(format!("t {}", if r.chance(1, 2) { 150 } else { 5 })),
+            }
+        }
+        // ---- drain: resolve every attempt (two rounds), poll everyone, release everything, probe every origin
+        emit!("mark".to_string());
+        for round in 0..2u64 {
+            for q in issued.clone() { emit!(format!("d {q} {}", if (q + round) % 3 == 0 { "fc" } else { "ok0" })); }
+            emit!("run".to_string());
+            for q in issued.clone() { emit!(format!("p {q}")); }
+        }
+        emit!("run".to_string());
+        emit!("mark".to_string());
+        for q in issued.clone() { emit!(format!("p {q}")); }
+        for q in issued.clone() { emit!(format!("f {q}")); }
+        let nconn = sess.w.lock().unwrap().conns.len();
+        for c in 0..nconn { emit!(format!("cr {c}")); }
+        emit!("run".to_string());
+        emit!("mark".to_string());
+        for (j, k) in keyset.iter().enumerate() {
+            let q = 100 + j as u64;
+            emit!(format!("i {q} {k} {}", (h2_bias == 2) as u8));
+            emit!(format!("p {q}"));
+            emit!(format!("d {q} ok0"));
+            emit!(format!("p {q}"));
+        }
+        ops
+    });
+    format!("{cfg} ; {}", ops.join(" ; "))
 }
